@@ -50,7 +50,7 @@ Definition model03 (k : case03) :=
 
 (** learner calls in spawn order: true = gossip verifier call (its error is observable), false = Head() call *)
 Definition call_kinds (l : list (dact * obs)) : list bool :=
-  flat_map (fun p => match fst p with DDeliver _ _ _ | DDeliverP _ _ _ => [true] | DHead _ => [false] | _ => [] end) l.
+  flat_map (fun p => match fst p with DDeliver _ _ _ | DDeliverP _ _ _ => [true] | DHead _ | DHeadP _ => [false] | _ => [] end) l.
 
 Fixpoint res_agree (kinds : list bool) (m i : list N) : bool :=
   match kinds, m, i with
@@ -62,6 +62,8 @@ Fixpoint res_agree (kinds : list bool) (m i : list N) : bool :=
 Definition agree03 (k : case03) : bool :=
   let '(os, res, (pr, stored), dump, nh) := model03 k in
   list_eqb obs_eqb os (map snd (q_acts k)) && res_agree (call_kinds (q_acts k)) res (q_results k)
+  (* the header at the Store's head: the model's, or (two different headers appended at that height) one the model stored there *)
+  && list_eqb (fun m i => (o_hid m =? o_hid i) || existsb (pairNN_eqb (o_head i, o_hid i)) stored) os (map snd (q_acts k))
   (* the Store serves the same heights; where two different headers were appended at one height (forks, over-long
      answers) which of them it serves is the Store's business (C04): it must be one of those the model stored there *)
   && list_eqb N.eqb (map fst pr) (map fst (q_probe k))
@@ -77,7 +79,7 @@ Definition agree03 (k : case03) : bool :=
 Definition act_hdrs (a : dact) : list hdr :=
   match a with
   | DDeliver h _ (Bif pr _) | DDeliverP h _ (Bif pr _) => h :: pr
-  | DHead (Some h) => [h]
+  | DHead (Some h) | DHeadP (Some h) => [h]
   | DAnswer (ARaw l) => l
   | _ => []
   end.
@@ -95,20 +97,42 @@ Definition expected_ret (k : case03) (prev : obs) (h : hdr) (now : Z) (b : bifre
     end
   end.
 
-(** identities allowed in the store: initial, true chain (the getter's source),
-    raw answers, Head() answers, promoted heads, and gossip headers whose
-    verifier call did not return an error *)
-Fixpoint allowed_ids (res : list N) (i : nat) (l : list (dact * obs)) : list N :=
+(** the action that spawned learner call number [i] *)
+Fixpoint nth_call (l : list (dact * obs)) (i : nat) : option dact :=
   match l with
-  | [] => []
+  | [] => None
   | (a, _) :: r =>
     match a with
+    | DDeliver _ _ _ | DDeliverP _ _ _ | DHead _ | DHeadP _ =>
+      match i with O => Some a | S j => nth_call r j end
+    | _ => nth_call r i
+    end
+  end.
+
+(** a learner call only ever adds the header right above the store head (or rewrites a height below it): a
+    network head answer that arrives when the Store's head already is ANOTHER header of that height must
+    not replace it.  Decided on the observation before the answer arrives; only without the Append gate,
+    where the shim's cached head is the Store's head at every quiescence. *)
+Definition head_answer_ids (gate : bool) (prev : obs) (h : hdr) : list N :=
+  if negb gate && (o_head prev =? h_height h) && negb (o_hid prev =? h_id h) then [] else [h_id h].
+
+(** identities allowed in the store: initial, true chain (the getter's source),
+    raw answers, Head() answers (see above), promoted heads, and gossip headers
+    whose verifier call did not return an error *)
+Fixpoint allowed_ids (gate : bool) (all : list (dact * obs)) (res : list N) (i : nat) (prev : obs) (l : list (dact * obs)) : list N :=
+  match l with
+  | [] => []
+  | (a, o) :: r =>
+    match a with
     | DDeliver h _ (Bif pr _) | DDeliverP h _ (Bif pr _) =>
-      (if nth i res 0 =? 2 then [] else [h_id h]) ++ map h_id pr ++ allowed_ids res (S i) r
-    | DHead (Some h) => h_id h :: allowed_ids res (S i) r
-    | DHead None => allowed_ids res (S i) r
-    | DAnswer (ARaw l) => map h_id l ++ allowed_ids res i r
-    | _ => allowed_ids res i r
+      (if nth i res 0 =? 2 then [] else [h_id h]) ++ map h_id pr ++ allowed_ids gate all res (S i) o r
+    | DHead (Some h) => head_answer_ids gate prev h ++ allowed_ids gate all res (S i) o r
+    | DHead None | DHeadP _ => allowed_ids gate all res (S i) o r
+    | DRelT j =>
+      (match nth_call all j with Some (DHeadP (Some h)) => head_answer_ids gate prev h | _ => [] end)
+      ++ allowed_ids gate all res i o r
+    | DAnswer (ARaw l) => map h_id l ++ allowed_ids gate all res i o r
+    | _ => allowed_ids gate all res i o r
     end
   end.
 
@@ -123,6 +147,16 @@ Fixpoint walk03 (k : case03) (prev : obs) (l : list (dact * obs)) : bool :=
   | (a, o) :: r =>
     (* Head() of the store and the sync numbering never go back *)
     (o_head prev <=? o_head o) && (o_id prev <=? o_id o)
+    (* Syncer.Head() is never below the head the shim handed to the Store (State().Height), in any state
+       (C07_head_never_below_store_head; [head_observed] below) *)
+    && (o_height o <=? o_local o)
+    (* a learner call (gossip verifier, Head()) only ever adds the header right above the store head: it never
+       replaces the header the Store holds at its head (the sync loop writes only when a range answer arrives
+       or its gated Append is released) *)
+    && (match a with
+        | DAnswer _ | DRelL => true
+        | _ => if o_head prev =? o_head o then o_hid prev =? o_hid o else true
+        end)
     && (match a with
         | DDeliver h now b | DDeliverP h now b =>
           if o_ret o =? 3 then true                    (* parked behind incomingMu / the gate: decided later *)
@@ -141,8 +175,8 @@ Fixpoint walk03 (k : case03) (prev : obs) (l : list (dact * obs)) : bool :=
 Definition ok03 (k : case03) : bool :=
   let h0 := h_height (last (q_init k) hdr_nil) in
   let i0 := h_id (last (q_init k) hdr_nil) in
-  let o0 := Obs 0 h0 h0 i0 0 0 0 false h0 None in
-  let ids := map h_id (q_init k) ++ map h_id (q_chain k) ++ allowed_ids (q_results k) 0 (q_acts k) in
+  let o0 := Obs 0 h0 h0 i0 0 0 0 false h0 None i0 in
+  let ids := map h_id (q_init k) ++ map h_id (q_chain k) ++ allowed_ids (q_gate k) (q_acts k) (q_results k) 0 o0 (q_acts k) in
   walk03 k o0 (q_acts k)
   && (match last_opt (map snd (q_acts k)) with
       | Some o =>
@@ -180,3 +214,7 @@ Proof.
   intros HI Hq n. rewrite rs_get_has.
   destruct (store_contiguous tail c HI) as (_ & _ & _ & _ & Hx & _). apply Hx. exact Hq.
 Qed.
+
+(** what [walk03] demands of every observation is what C07_head_never_below_store_head states of every configuration *)
+Lemma head_observed ret c : (o_height (observe ret c) <=? o_local (observe ret c)) = true.
+Proof. apply N.leb_le. cbn. unfold state_height. apply local_head_ge_cache. Qed.
